@@ -6,6 +6,7 @@ import (
 	"encoding/hex"
 	"net"
 
+	"github.com/miscreant/miscreant.go"
 	"github.com/scionproto/scion/pkg/addr"
 	"github.com/scionproto/scion/pkg/slayers"
 	"golang.org/x/sys/unix"
@@ -136,7 +137,58 @@ func mutateExtFields(t *rapid.T, b []byte) ([]byte, string) {
 	return b, note
 }
 
+// oddAuthenticNTS builds a request that authenticates (valid cookie under the victim's key, authenticator sealed
+// with the cookie's C2S key by the harness's own encoder) but has an unusual shape: long unique identifier, many
+// or large placeholder fields, extra cookie fields. Anyone can obtain such keys with a key exchange.
+func oddAuthenticNTS(t *rapid.T, v *victim) []byte {
+	c2s := rapid.SliceOfN(rapid.Byte(), 32, 32).Draw(t, "c2s")
+	s2c := rapid.SliceOfN(rapid.Byte(), 32, 32).Draw(t, "s2c")
+	sc := ntske.ServerCookie{Algo: ntske.AES_SIV_CMAC_256, S2C: s2c, C2S: c2s}
+	enc, err := sc.EncryptWithNonce(v.key, v.keyID)
+	if err != nil {
+		panic(err)
+	}
+	field := func(typ uint16, body []byte) []byte {
+		f := make([]byte, 4+(len(body)+3)&^3)
+		binary.BigEndian.PutUint16(f, typ)
+		binary.BigEndian.PutUint16(f[2:], uint16(len(f)))
+		copy(f[4:], body)
+		return f
+	}
+	b := ntpHeader(t)
+	uidLen := rapid.SampledFrom([]int{32, 32, 33, 64, 200, 600, 1000, 1100, 1150, 1190, 1200, 1500}).Draw(t, "uidlen")
+	b = append(b, field(0x104, bytes.Repeat([]byte{0x5a}, uidLen))...)
+	b = append(b, field(0x204, enc.Encode())...)
+	for i := rapid.SampledFrom([]int{0, 0, 1, 3}).Draw(t, "extracookies"); i > 0; i-- {
+		b = append(b, field(0x204, enc.Encode())...)
+	}
+	np := rapid.SampledFrom([]int{0, 1, 7, 8, 9, 12, 40, 100}).Draw(t, "nplaceholders")
+	pl := rapid.SampledFrom([]int{0, 4, 16, 124, 300}).Draw(t, "placeholderlen")
+	for i := 0; i < np && len(b)+4+pl+48 < 2040; i++ {
+		b = append(b, field(0x304, make([]byte, pl))...)
+	}
+	if len(b)+48 > 2048 {
+		b = b[:48+4+(uidLen+3)&^3]
+		b = append(b, field(0x204, enc.Encode())...)
+	}
+	aead, err := miscreant.NewAEAD("AES-CMAC-SIV", c2s, 16)
+	if err != nil {
+		panic(err)
+	}
+	nonce := rapid.SliceOfN(rapid.Byte(), 16, 16).Draw(t, "nonce")
+	ct := aead.Seal(nil, nonce, nil, b)
+	auth := make([]byte, 4+16+len(ct))
+	binary.BigEndian.PutUint16(auth, 16)
+	binary.BigEndian.PutUint16(auth[2:], uint16(len(ct)))
+	copy(auth[4:], nonce)
+	copy(auth[20:], ct)
+	return append(b, field(0x404, auth)...)
+}
+
 func genNTPItem(t *rapid.T, v *victim) item {
+	if rapid.IntRange(0, 3).Draw(t, "odd-authentic") == 2 {
+		return item{Target: "ntp", Hex: hx(oddAuthenticNTS(t, v)), Note: "nts-authentic-odd-shape"}
+	}
 	switch rapid.IntRange(0, 3).Draw(t, "ntpkind") {
 	case 0:
 		n := rapid.SampledFrom([]int{0, 1, 47, 48, 49, 52, 64, 76, 100, 1024, 2047, 2048, 2049}).Draw(t, "len")
@@ -186,8 +238,11 @@ func genSCIONBase(t *rapid.T, v *victim, r *rig, target string) (wire.Pkt, []*sl
 		p.Payload, p.DstPort = ntpHeader(t), vSCIONPort
 	case "nts":
 		b, _ := validNTSRequest(t, v)
-		if rapid.Bool().Draw(t, "mutnts") {
+		switch rapid.IntRange(0, 2).Draw(t, "mutnts") {
+		case 1:
 			b, _ = mutateExtFields(t, b)
+		case 2:
+			b = oddAuthenticNTS(t, v)
 		}
 		p.Payload, p.DstPort = b, vSCIONPort
 	case "scmp-echo":
